@@ -30,6 +30,7 @@ type c15Case struct {
 	Headers    int  // headers per target (stream)
 	Bodies     bool // http: @file bodies; json: inline bodies
 	Pad        int  // extra bytes per header value (long lines)
+	SharedDef  bool // the defaults also carry the targets' first header key (X-H0), in a slice with spare capacity
 }
 
 func c15Letters(i int) string {
@@ -54,13 +55,30 @@ func c15Index(t *vegeta.Target, c c15Case) (int, error) {
 	if t.Method != c15Letters(idx) {
 		return idx, fmt.Errorf("target mixes parts of different targets: url index %d, method %q (want %q)", idx, t.Method, c15Letters(idx))
 	}
-	if len(t.Header) != c.Headers+1 { // +1 default header
-		return idx, fmt.Errorf("target %d has %d header keys, want %d: %v", idx, len(t.Header), c.Headers+1, t.Header)
+	wantKeys := c.Headers + 1 // +1 default header
+	if c.SharedDef && c.Headers == 0 {
+		wantKeys++ // X-H0 comes from the defaults alone
+	}
+	if len(t.Header) != wantKeys {
+		return idx, fmt.Errorf("target %d has %d header keys, want %d: %v", idx, len(t.Header), wantKeys, t.Header)
+	}
+	if c.SharedDef {
+		got := t.Header["X-H0"]
+		want := []string{"def-a", "def-b", "def-c"}
+		if c.Headers > 0 {
+			want = append(want, fmt.Sprintf("v0-%d%s", idx, strings.Repeat("p", c.Pad)))
+		}
+		if strings.Join(got, "|") != strings.Join(want, "|") {
+			return idx, fmt.Errorf("target %d: header X-H0 = %v, want the defaults followed by its own value %v (targets mixed?)", idx, got, want)
+		}
 	}
 	if got := t.Header["X-Default"]; len(got) != 1 || got[0] != "d" {
 		return idx, fmt.Errorf("target %d default header = %v", idx, got)
 	}
 	for h := 0; h < c.Headers; h++ {
+		if h == 0 && c.SharedDef {
+			continue
+		}
 		want := fmt.Sprintf("v%d-%d%s", h, idx, strings.Repeat("p", c.Pad))
 		if got := t.Header[fmt.Sprintf("X-H%d", h)]; len(got) != 1 || got[0] != want {
 			return idx, fmt.Errorf("target mixes parts of different targets: url index %d, header X-H%d = %v (want %q)", idx, h, got, want)
@@ -135,6 +153,13 @@ func evalC15(c c15Case) (active int, err error) {
 		}
 	}
 	defHdr := http.Header{"X-Default": []string{"d"}}
+	if c.SharedDef { // built like three -header flags: append leaves spare capacity
+		var vs []string
+		for _, v := range []string{"def-a", "def-b", "def-c"} {
+			vs = append(vs, v)
+		}
+		defHdr["X-H0"] = vs
+	}
 	var tr vegeta.Targeter
 	if c.Kind == "http" {
 		tr = vegeta.NewHTTPTargeter(strings.NewReader(doc.String()), []byte("default-body"), defHdr)
@@ -304,6 +329,7 @@ func TestC15Concurrent(t *testing.T) {
 			c.Targets = int(math.Exp(rapid.Float64Range(0, math.Log(5000)).Draw(t, "logn")))
 			c.Headers = rapid.IntRange(0, 4).Draw(t, "headers")
 			c.Bodies = rapid.Bool().Draw(t, "bodies")
+			c.SharedDef = rapid.Bool().Draw(t, "shareddef")
 			if rapid.IntRange(0, 4).Draw(t, "padded") == 0 {
 				c.Pad = rapid.SampledFrom([]int{100, 1000, 4100}).Draw(t, "pad")
 				if c.Pad*c.Headers*c.Targets > 4<<20 {
